@@ -288,9 +288,66 @@ def configs(ctx):
     return out
 
 
+def wrap_walk(args):
+    """one subscriber through the session-id wrap by real rounds of two events per datagram (the wrap falls inside a
+    datagram): every round must arrive, ids 1..0xFFFF, 1, ... without 0, a gap or a repeat"""
+    sid, major, rounds = args
+    from ..vloop import VLoop
+    loop = VLoop().install()
+    viols = []
+    try:
+        class S(svc.SimpleService):
+            service_id = sid
+            version_major = major
+            version_minor = 0
+
+        service = S(instance_id=1)
+        service.transport = FakeTransport(loop, sockname=("192.0.2.1", 30501))
+        eg = svc.SimpleEventgroup(service, id=5)
+        eg.values[1] = b"\x01"
+        eg.values[2] = b"\x02"
+        service.register_eventgroup(eg)
+        service.client_subscribed(sd.EventgroupSubscription(service_id=sid, instance_id=1, major_version=major, id=5, counter=0,
+                                                            ttl=3, endpoints=frozenset([EP["e1"]])), SRC)
+        loop.settle()
+        want = 1
+        n = 0
+        for rnd in range(rounds + 1):
+            if rnd:
+                eg.notify_once([1, 2])
+                loop.settle()
+            sent = service.transport.sent
+            got = []
+            for t, it, data, addr in sent:
+                msgs, err, _ = refcodec.dec_someip_all(data)
+                if err or addr != ADDR["e1"]:
+                    viols.append(("wire", "undecodable-or-destination", f"round {rnd}: {err} to {addr}", rnd))
+                got += [(x["method"] & 0x7FFF, x["session"], x["payload"]) for x in msgs]
+            sent.clear()
+            n += 1
+            exp = []
+            for evn in (1, 2):
+                exp.append((evn, want, bytes([evn])))
+                want = want % 0xFFFF + 1
+            if got != exp:
+                viols.append(("session", "wrap-walk", f"round {rnd} (0 = initial notification): notifications (event, session id, "
+                              f"payload) {got}, expected {exp}", rnd))
+                if len(viols) > 5:
+                    break
+                if got:
+                    want = got[-1][1] % 0xFFFF + 1
+        return n, viols
+    finally:
+        loop.dispose()
+
+
 def check(ctx):
     details, viols = [], []
     samples = core.Samples()
+    nwalk, wv = core.pmap(wrap_walk, [(sid_for(ctx.seed), 1 + ctx.seed % 100, 32800 + ctx.seed % 7)], 1)[0]
+    core.close_pool()
+    for clause, disc, detail, rnd in wv:
+        viols.append(core.Violation(ctx.prop, clause, disc, dict(walk=True, round=rnd, seed=ctx.seed), detail=detail))
     for name, cfg, depth in configs(ctx):
         res, vs, det = e1.search(ctx, Sys, cfg, depth, name)
         core.close_pool()
@@ -302,13 +359,21 @@ def check(ctx):
     cov["samples"] = samples.out()
     cov["exhaustive"] = not cov["caps_hit"]
     cov["depth_completed"] = {d["search"]: d["depth_completed"] for d in details}
+    cov["wrap_walk_rounds"] = nwalk
     return core.finish(ctx, "model_checking", cov, viols, [
         "two overlapping subscriptions naming the same endpoint are outside the quantifier and not generated",
-        "per-destination session counters are left out of the state key (they only ever increase below the wrap here; "
-        "the wrap itself is covered by C08 phase iii); the oracle still checks every id against the previous one",
+        "per-destination session counters are left out of the state key (they only ever increase below the wrap in the "
+        "searches; the wrap is walked separately by 32800 real rounds of two events, and by C08 phase iii); the oracle "
+        "checks every id against the previous one",
         "getaddrinfo answers immediately (numeric resolution); a delayed answer is not explored",
     ])
 
 
 def replay(ctx, body):
+    if body["case"].get("walk"):
+        seed = body["case"].get("seed", ctx.seed)
+        n, wv = wrap_walk((sid_for(seed), 1 + seed % 100, 32800 + seed % 7))
+        for v in wv:
+            print("FAILS:", v[:3])
+        return 1 if wv else 0
     return e1.replay_case(Sys, body)
